@@ -270,6 +270,10 @@ func run(tapeJSON json.RawMessage, res *core.Result) {
 					if !userOK || strings.Join(creds.CName().NameString, "/") != wantUser {
 						engine.Violate(res, "wrong-identity|client-name-not-from-ticket", o)
 					}
+					if userOK && creds.CName().NameType != tr.TktCNameType {
+						// the name-type is part of the name the KDC sealed; the authenticator's is the client's choice
+						engine.Violate(res, "wrong-identity|client-name-type-not-from-ticket", o)
+					}
 					if creds.Domain() != tr.TktCRealm || creds.Realm() != tr.TktCRealm {
 						engine.Violate(res, "wrong-identity|realm-not-from-ticket", o)
 					}
